@@ -3,7 +3,10 @@ package main
 import (
 	"errors"
 	"fmt"
+	"regexp"
+	"sort"
 	"strings"
+	"sync"
 	"time"
 
 	"github.com/c4pt0r/kvql"
@@ -109,6 +112,31 @@ func runERRPOS(e *Env) (*Summary, error) {
 	saved := kvql.PlanBatchSize
 	kvql.PlanBatchSize = 2
 	defer func() { kvql.PlanBatchSize = saved }()
+	sites := map[string]bool{}
+	var sitesMu sync.Mutex
+	for ci, cq := range errposCorpus {
+		long := strings.Replace(cq, "where ", "where key != 'a long literal that pushes the rest of the statement beyond seventy bytes' & ", 1)
+		for vi, v := range []string{cq, "   " + cq + "  ", "\n\t" + cq, long, strings.Repeat(" ", 40) + long} {
+			if vi >= 3 && !strings.Contains(cq, "where ") {
+				continue
+			}
+			col.Eval(1)
+			for _, batch := range []bool{false, true} {
+				res := runStatement(v, NewRefStore(smallStore()), batch, true)
+				if res.Panic != "" {
+					col.Hist("engine-panic")
+					continue
+				}
+				if res.Err != nil {
+					col.Nontrivial(v)
+					sitesMu.Lock()
+					sites[errSite(res.Err)] = true
+					sitesMu.Unlock()
+					errposCheck(col, v, res.Err, res.ErrStage, e.Seed, uint64(ci))
+				}
+			}
+		}
+	}
 	err := e.parallel(func(w int, d *Driver) error {
 		for ix := uint64(w); ix < uint64(n); ix += uint64(e.Workers) {
 			r := NewRand(e.Seed, "ERRPOS", ix)
@@ -141,6 +169,9 @@ func runERRPOS(e *Env) (*Summary, error) {
 					}
 					if res.Err != nil {
 						col.Nontrivial(v)
+						sitesMu.Lock()
+						sites[errSite(res.Err)] = true
+						sitesMu.Unlock()
 						errposCheck(col, v, res.Err, res.ErrStage, e.Seed, ix)
 					}
 				}
@@ -154,7 +185,71 @@ func runERRPOS(e *Env) (*Summary, error) {
 	if err != nil {
 		return nil, err
 	}
+	var sl []string
+	for k := range sites {
+		sl = append(sl, k)
+	}
+	sort.Strings(sl)
+	joined := strings.Join(sl, " | ")
+	if len(joined) > 2500 {
+		joined = joined[:2500] + " …"
+	}
+	col.Note(fmt.Sprintf("%d distinct error message shapes (digits and quoted parts removed, cut at 30 bytes) were reached: %s", len(sl), joined))
+	col.Hist("distinct-error-messages")
+	col.sum.Histogram["distinct-error-messages"] = len(sl)
 	return col.Finish(start), nil
+}
+
+var errSiteRe = regexp.MustCompile("[0-9]+|'[^']*'|`[^`]*`|\"[^\"]*\"")
+
+// errSite reduces an error to its message shape (used only to report which error sites were reached)
+func errSite(err error) string {
+	msg := ""
+	var se *kvql.SyntaxError
+	var ee *kvql.ExecuteError
+	if errors.As(err, &se) {
+		msg = "S:" + se.Message
+	} else if errors.As(err, &ee) {
+		msg = "E:" + ee.Message
+	} else {
+		msg = "O:" + err.Error()
+	}
+	msg = errSiteRe.ReplaceAllString(msg, "#")
+	if len(msg) > 30 {
+		msg = msg[:30]
+	}
+	return msg
+}
+
+// errposCorpus: hand-written erroneous statements aimed at every error site of parser.go,
+// checker.go, statement.go and optimizer.go (plan building), so that a wrong offset on ONE
+// error path is exercised on every run.
+var errposCorpus = []string{
+	"", ";", ";;", "foo", "foo bar", "select", "select *", "select * where", "select *, key where key = 'a'", "select key, * where key = 'a'",
+	"select * from where key = 'a'", "select key as where key = 'a'", "select key as", "select key as 'x' where key = 'a'", "select key value where key = 'a'",
+	"select where key = 'a'", "select key, where key = 'a'", "select key", "select key,", "select key where",
+	"where key = 'a' order by key order by key", "select key where key = 'a' order by key order by key desc", "select key, value where key ^= 'k' order by value asc order by key",
+	"select key, count(1) where key = 'a' group by key group by key", "where key = 'a' limit 1 limit 2", "where key = 'a' limit 1, 2 limit 3",
+	"where key = 'a' limit", "where key = 'a' limit x", "where key = 'a' limit 1,", "where key = 'a' limit 1, x", "where key = 'a' limit 1, 2, 3", "where key = 'a' limit 1 2 3", "where key = 'a' limit 1, 2 key",
+	"where key = 'a' order by", "where key = 'a' order", "where key = 'a' order key", "select key where key = 'a' order by nosuch", "select key where key = 'a' order by key,", "select key where key = 'a' order by key desc asc",
+	"select key where key = 'a' group by", "select key where key = 'a' group", "select key, count(1) where key = 'a' group by nosuch", "select key, count(1) where key = 'a' group by upper(key)",
+	"select key, count(1) as c where key = 'a' group by c", "select key, count(1) where key = 'a' group by count(1)", "select key where key = 'a' group by key",
+	"select key, value, count(1) where key = 'a' group by key", "select key, count(1) where key ^= 'a'", "select sum(count(1)) where key = 'a'", "select sum(int(value) + count(1)) where key = 'a'",
+	"select split(key, 'a') as l where key = 'a' order by l", "select json(value) as j where key = 'a' order by j", "select key where key = 'a' order by value",
+	"where key = 'a' foo", "where key = 'a' 'b'", "where (key = 'a'", "where key = 'a')", "where ((key = 'a')", "where key in", "where key in (", "where key in ('a'", "where key in ('a',", "where key in 'a'", "where key in ()", "where key in ('a', 1)", "where key in (1, 2)",
+	"where key between", "where key between 'a'", "where key between 'a' and", "where key between 'a' or 'b'", "where key between 'a', 'b'", "where key between 1 and 2", "where key between 'a' and 2",
+	"where upper(key value) = 'A'", "where upper(key = 'A'", "where upper(key, = 'A'", "where upper( = 'A'", "where 'x'(key) = 'A'", "where 1(key) = 2",
+	"where json(value)['a' 'b'] = 'x'", "where json(value)[] = 'x'", "where json(value)['a' = 'x'", "where json(value)[key] = 'x'", "where key['a'] = 'x'", "where upper(key)[1] = 'x'", "where json(value)[1.5] = 'x'",
+	"where !", "where ! !", "where key =", "where = 'a'", "where key = = 'a'", "where and key = 'a'", "where key = 'a' and", "where key = 'a' &", "where | key = 'a'", "where key", "where 'a'", "where 1", "where key + 'a'",
+	"where !key", "where !1", "where !(key + 'a')", "where key = 1", "where 1 = key", "where key & value", "where key = 'a' & value", "where 1 & 2", "where true & key = 'a'", "where key = 'a' | false",
+	"where 1 + 'a' = 2", "where 'a' - 'b' = 'c'", "where key * 2 = 2", "where key ^= 1", "where 1 ^= 2", "where key ~= 2", "where true > false", "where (key = 'a') > (key = 'b')", "where key = key", "where value != value",
+	"where 1 / 0 = 1", "where 1 / 0.0 = 1", "where int(value) / 0 > 1", "where (key = 'a') + 1 = 2", "where nosuch = 'a'", "where key = nosuch", "where nosuch(key) = 'a'", "where upper() = 'a'", "where upper(key, key) = 'a'", "where substr(key, 'a', 2) = 'a'",
+	"where split(key) = 'a'", "where join() = 'a'", "where list()[0] = 1", "where key in split(key)", "where l2_distance(list(1,2), list(1)) > 0", "where cosine_distance(list(1), split('a,b', ',')) > 0",
+	"select key, int(value) as n where n = 'a'", "select key as k where k > 1", "select key as k, value as k where k = 'a'", "select upper(key) as u where u", "select key, n where key = 'a'",
+	"put", "put (", "put ('a'", "put ('a')", "put ('a',", "put ('a' 'b')", "put ('a', 'b'", "put ('a', 'b') ('c', 'd')", "put ('a', 'b'),", "put ('a', 'b'), 'c'", "put ('a', value)", "put (value, 'a')", "put ('a', 'b' = 'c')", "put (key = 'a', 'b')", "put ('a', split('a', ','))", "put ('a', json('{}'))", "put 'a', 'b'", "put ('a', 'b', 'c')", "put ('a', nosuch('b'))", "put ('a', upper())", "put ('a', 1/0)",
+	"remove", "remove key", "remove value", "remove 'a' 'b'", "remove 'a',", "remove ,", "remove 'a' = 'b'", "remove split('a', ',')", "remove upper(key)", "remove nosuch('a')", "remove ('a'",
+	"delete", "delete key = 'a'", "delete where", "delete where key", "delete where key = 'a' limit", "delete where key = 'a' limit 1 limit 2", "delete where key = 'a' foo", "delete where key = 'a' limit 1 x", "delete where key = 'a' limit 1,", "delete where key = 1", "delete from where key = 'a'", "delete where key = 'a' order by key",
+	"select * where key = 'abc", "select * where key = \"abc", "select `a b where key = 'a'", "select * where key ^ 'a'", "select * where key ~ 'a'", "select * where key == 'a'", "select * where key <> 'a'", "select * where key =! 'a'",
 }
 
 func selfRefAlias(q string) bool { return false }
